@@ -50,6 +50,14 @@ def check_one_reply_paths(cx, rule):
                     for s in body.blocks[b].stmts:
                         if s.kind == "assign" and s.lhs.l == 0 and not s.lhs.p: last_def = s
                 via_q = last_def is not None and getattr(last_def, "callee", None) is not None and last_def.callee.name == "from_residual"
+                if not via_q:
+                    # the Err may have travelled through locals (a helper's return value handed on): ask the abstract store
+                    from vlib import absval
+                    st = None
+                    for kind, b2, x, st_ in absval.walk(body, du, cfg, p):
+                        if kind == "term" and x.kind == "return": st = st_
+                    v = (st or {}).get(0)
+                    via_q = v is not None and v[0] == "var" and v[1] == 1
                 if via_q: hist["0+Err"] = hist.get("0+Err", 0) + 1; continue
                 bad.append((0, p))
             else:
